@@ -3,7 +3,7 @@
 From Verif.Base Require Import Bytes.
 From Verif.Gen Require Import GenRegex.
 From Verif.Semver Require Import Model.
-From Verif.Module Require Import Pseudo PseudoProofs.
+From Verif.Module Require Import Pseudo PseudoProofsRe.
 
 Theorem C18_pseudo_re_source :
   module_pseudoVersionRE =
